@@ -745,6 +745,24 @@ def micro_streams(ford, drv, rng, n, rep, hist):
     return len(reqs), bad
 
 
+def modproc_variant(ford):
+    """Which variant of get_mod_procs the working tree has (decided on the finding's witness)."""
+    wit = ["module m", "interface g", "module procedure s", "!! author: A", "!!", "!! text", "end interface",
+           "contains", "subroutine s()", "end subroutine", "end module"]
+    with common.scratch_dir() as d:
+        f = d / "w.f90"
+        f.write_text("\n".join(wit) + "\n")
+        try:
+            with common.quiet():
+                p, _ = run_ford(ford, f, DEFAULT_MARKS)
+                for it in list(p.allfiles)[0].markdownable_items:
+                    if type(it).__name__ == "FortranModuleProcedureReference":
+                        return "repaired" if it.meta.author == "A" else "asis"
+        except Exception:
+            pass
+    return "asis"
+
+
 def oracle_entity(name, exp, obs):
     """Property oracle for one entity: None or a description of the failure."""
     words, meta, _ = exp
@@ -797,7 +815,9 @@ def program_stream(ford, drv, rng, n, rep, hist, samples, distinct, replay_case=
                     if marks != DEFAULT_MARKS:
                         layout.add("alternative-marker-characters")
                     cases.append((lines, expected, marks, layout))
-        model = drv.batch([["c03.attach", *marks, *lines] for lines, _, marks, _ in cases])
+        variant = modproc_variant(ford)
+        hist["variant:modproc-metadata:" + variant] = 1
+        model = drv.batch([["c03.attach", variant, *marks, *lines] for lines, _, marks, _ in cases])
         pipe_reqs, pipe_ctx = [], []
         with common.scratch_dir() as d:
             for ci, ((lines, expected, marks, layout), mo) in enumerate(zip(cases, model)):
